@@ -36,17 +36,20 @@ type svc0 interface{ Svc0() }
 type svc1 interface{ Svc1() }
 type svc2 interface{ Svc2() }
 type svc3 interface{ Svc3() }
+type svc4 interface{ Svc4() }
 
 // handlers: pointer receivers, so that a *value* of the right struct type is ill-typed
 type h0 struct{ tag string }
 type h1 struct{ tag string }
 type h2 struct{ tag string }
 type h3 struct{ tag string }
+type h4 struct{ tag string }
 
 func (*h0) Svc0() {}
 func (*h1) Svc1() {}
 func (*h2) Svc2() {}
 func (*h3) Svc3() {}
+func (*h4) Svc4() {}
 
 type fileMeta struct {
 	File string
@@ -64,6 +67,7 @@ type poolEntry struct {
 	unary    []string
 	streams  []streamDef
 	metadata interface{}
+	mapOnly  bool // only in the HandlerMap pool (the name cannot be addressed through a transport)
 }
 
 var pool = []poolEntry{
@@ -71,11 +75,58 @@ var pool = []poolEntry{
 	{name: "p.Unary1", htype: (*svc1)(nil), unary: []string{"U1"}, metadata: "p/unary1.proto"},
 	{name: "p.Streams", htype: (*svc2)(nil), streams: []streamDef{{"CS", true, false}, {"SS", false, true}}},
 	{name: "p.Mixed", htype: (*svc3)(nil), unary: []string{"A", "B"}, streams: []streamDef{{"Bidi", true, true}, {"Neither", false, false}}, metadata: fileMeta{"p/mixed.proto", 3}},
+	// a name that starts with a slash, next to its slash-less namesake p.Unary1
+	{name: "/p.Unary1", htype: (*svc4)(nil), unary: []string{"U1"}, metadata: "slash/unary1.proto", mapOnly: true},
 }
 
 const unknownName = "p.Unknown"
 
-var allNames = []string{"p.Empty", "p.Unary1", "p.Streams", "p.Mixed", unknownName}
+// poolFor: indices of the pool descriptors used on a carrier
+func poolFor(carrierName string) []int {
+	var out []int
+	for i, p := range pool {
+		if !p.mapOnly || carrierName == "HandlerMap" {
+			out = append(out, i)
+		}
+	}
+	return out
+}
+
+// qname is a name to look up; on the transports the lookup is made by calling
+// the methods of pool[methodsFrom] under that name (-1: methods X and Y).
+type qname struct {
+	name        string
+	methodsFrom int
+}
+
+// queryNames: every pool name of the carrier, an unknown name, and near misses of
+// every slash-less pool name (leading / trailing / doubled slash, proper prefix,
+// proper suffix, extension). A near miss is "registered" only if exactly that
+// string was registered (possible for "/p.Unary1" on the HandlerMap).
+func queryNames(carrierName string) []qname {
+	var out []qname
+	seen := map[string]bool{}
+	add := func(n string, from int) {
+		if !seen[n] {
+			seen[n] = true
+			out = append(out, qname{n, from})
+		}
+	}
+	for _, i := range poolFor(carrierName) {
+		add(pool[i].name, i)
+	}
+	add(unknownName, -1)
+	for i, p := range pool {
+		if p.mapOnly {
+			continue
+		}
+		n := p.name
+		for _, nm := range []string{"/" + n, n + "/", "//" + n, "/" + n + "/", strings.Replace(n, ".", "./", 1), n[:len(n)-1], n[1:], n + "x", "p", ""} {
+			add(nm, i)
+		}
+	}
+	return out
+}
 
 func poolIndex(name string) int {
 	for i, p := range pool {
@@ -121,6 +172,8 @@ func id(v interface{}) string {
 		return "*h2@" + x.tag
 	case *h3:
 		return "*h3@" + x.tag
+	case *h4:
+		return "*h4@" + x.tag
 	}
 	return fmt.Sprintf("%T", v)
 }
@@ -155,8 +208,10 @@ func goodHandler(i int, tag string) interface{} {
 		return &h1{tag}
 	case 2:
 		return &h2{tag}
+	case 3:
+		return &h3{tag}
 	}
-	return &h3{tag}
+	return &h4{tag}
 }
 
 // illHandler: "other" = a well-formed handler of a different service;
@@ -172,8 +227,10 @@ func illHandler(i int, kind, tag string) interface{} {
 		return h1{tag}
 	case 2:
 		return h2{tag}
+	case 3:
+		return h3{tag}
 	}
-	return h3{tag}
+	return h4{tag}
 }
 
 // ---------------------------------------------------------------- carriers
@@ -288,17 +345,17 @@ func implKey(c carrier) string {
 
 // op strings: reg:<name>  ill-other:<name>  ill-value:<name>  query:<name>  foreach  info
 func opsFor(carrierName string) (registerOps, readOps []string) {
-	for _, p := range pool {
-		registerOps = append(registerOps, "reg:"+p.name)
+	for _, i := range poolFor(carrierName) {
+		registerOps = append(registerOps, "reg:"+pool[i].name)
 	}
-	for _, p := range pool {
-		registerOps = append(registerOps, "ill-other:"+p.name)
+	for _, i := range poolFor(carrierName) {
+		registerOps = append(registerOps, "ill-other:"+pool[i].name)
 	}
-	for _, p := range pool {
-		registerOps = append(registerOps, "ill-value:"+p.name)
+	for _, i := range poolFor(carrierName) {
+		registerOps = append(registerOps, "ill-value:"+pool[i].name)
 	}
-	for _, n := range allNames {
-		readOps = append(readOps, "query:"+n)
+	for _, q := range queryNames(carrierName) {
+		readOps = append(readOps, "query:"+q.name)
 	}
 	if carrierName == "HandlerMap" {
 		readOps = append(readOps, "foreach")
@@ -388,7 +445,13 @@ func applyOp(c carrier, m model, op string, step int) (probs []problem) {
 		// as a transition it must be a self loop
 		switch kind {
 		case "query":
-			guarded("query", name, &probs, func() { queryOracle(c, m, name, &probs) })
+			q := qname{name, -1}
+			for _, x := range queryNames(c.Name()) {
+				if x.name == name {
+					q = x
+				}
+			}
+			guarded("query", name, &probs, func() { queryOracle(c, m, q, &probs) })
 		case "foreach":
 			guarded("foreach", "", &probs, func() { forEachOracle(c.(*mapCarrier), m, &probs) })
 		case "info":
@@ -405,7 +468,8 @@ func applyOp(c carrier, m model, op string, step int) (probs []problem) {
 
 // ---------------------------------------------------------------- oracle
 
-func queryOracle(c carrier, m model, name string, probs *[]problem) {
+func queryOracle(c carrier, m model, q qname, probs *[]problem) {
+	name := q.name
 	want, registered := m[name]
 	if mc, ok := c.(*mapCarrier); ok {
 		d, h := mc.m.QueryService(name)
@@ -425,7 +489,7 @@ func queryOracle(c carrier, m model, name string, probs *[]problem) {
 		sd     streamDef
 	}
 	var calls []call
-	if i := poolIndex(name); i >= 0 {
+	if i := q.methodsFrom; i >= 0 {
 		for _, u := range pool[i].unary {
 			calls = append(calls, call{u, false, streamDef{}})
 		}
@@ -541,9 +605,9 @@ func stateOracle(c carrier, m model) (probs []problem) {
 	if k := implKey(c); k != m.key() {
 		probs = append(probs, problem{"state-key", "", fmt.Sprintf("registry reports %s, model %s", k, m.key())})
 	}
-	for _, n := range allNames {
-		n := n
-		guarded("query", n, &probs, func() { queryOracle(c, m, n, &probs) })
+	for _, q := range queryNames(c.Name()) {
+		q := q
+		guarded("query", q.name, &probs, func() { queryOracle(c, m, q, &probs) })
 	}
 	if mc, ok := c.(*mapCarrier); ok {
 		guarded("foreach", "", &probs, func() { forEachOracle(mc, m, &probs) })
@@ -570,6 +634,7 @@ var current atomic.Value
 func runPath(carrierName string, ops []string, all bool) (probs []problem, finalKey string, c carrier, m model) {
 	atomic.AddInt64(&progress, 1)
 	current.Store(carrierName + " " + strings.Join(ops, " "))
+	descTags = map[*grpc.ServiceDesc]string{} // per path, or it would retain every descriptor ever built
 	c = newCarrier(carrierName)
 	m = model{}
 	for i, op := range ops {
@@ -625,7 +690,7 @@ func main() {
 	}
 
 	// ---------------- BFS
-	const maxDepth = 5
+	const maxDepth = 6
 	states, transitions, traces := 0, 0, 0
 	nontrivial := map[string]bool{}
 	depthReached := 0
@@ -725,11 +790,11 @@ func main() {
 		"reference_grpc_servers_built":  refServers,
 		"evaluations":                   traces + sequences,
 		"distinct_nontrivial":           len(nontrivial),
-		"rule":                          "BFS over (carrier x set of registered names) with 12 registration ops (good / handler of another service / value of a pointer-receiver type, per pool descriptor) and the read ops (query x 5 names, ForEach on HandlerMap, GetServiceInfo); each transition = fresh real object + replay of the shortest path + the op, then the full state oracle. A transition is non-trivial when it is a registration attempt or a read in a non-empty registry; distinct by (carrier, state, op). In addition every sequence of registration attempts up to registration_sequence_length is replayed without state caching.",
+		"rule":                          "BFS over (carrier x set of registered names) with 3 registration ops per pool descriptor (good / handler of another service / value of a pointer-receiver type; 5 descriptors on HandlerMap, 4 on the transports) and the read ops (query x every pool name, an unknown name and the near misses of every pool name: leading, trailing, doubled, inner slash, proper prefix, proper suffix, extension, empty; ForEach on HandlerMap; GetServiceInfo); each transition = fresh real object + replay of the shortest path + the op, then the full state oracle. A transition is non-trivial when it is a registration attempt or a read in a non-empty registry; distinct by (carrier, state, op). In addition every sequence of registration attempts up to registration_sequence_length is replayed without state caching.",
 		"samples":                       samples,
 		"exhaustive":                    frontierEmpty,
 	}, []string{
-		"pool of 4 descriptors (0-2 unary, 0-2 streams covering all four flag pairs, nil/string/struct Metadata) + 1 unknown name",
+		"pool of 4 descriptors (0-2 unary, 0-2 streams covering all four flag pairs, nil/string/struct Metadata) + on HandlerMap a 5th whose ServiceName is \"/p.Unary1\" next to p.Unary1 (such a name cannot be addressed through the transports' /service/method paths, so it is not registered there) + 1 unknown name + near-miss names",
 		"on the two transports, lookup is observed by dispatching every method of the service (in-process Invoke/NewStream; HTTP ServeHTTP on a recorder) and identifying descriptor and handler instance that ran",
 		"a nil handler is not part of the ill-typed alphabet (grpc.Server accepts it)",
 	}))
